@@ -157,6 +157,7 @@ func c06Inputs(tier, mode string) []c06Input {
 		}
 		for _, sid := range []string{"00112233445566778899aabbccddeeff", "x", " ", strings.Repeat("s", 70000), "../../etc/passwd", "%00"} {
 			out = append(out, c06Input{Label: "session-id=" + truncate(sid, 20), Verb: http.MethodPost, Body: ping, Hdr: map[string]string{"Mcp-Session-Id": sid}, NoAnswer: true})
+			out = append(out, c06Input{Label: "initialize session-id=" + truncate(sid, 20), Verb: http.MethodPost, Body: valid["initialize"], Hdr: map[string]string{"Mcp-Session-Id": sid}, NoAnswer: true})
 			out = append(out, c06Input{Label: "GET session-id=" + truncate(sid, 20), Verb: http.MethodGet, Hdr: map[string]string{"Mcp-Session-Id": sid}, NoAnswer: true})
 			out = append(out, c06Input{Label: "DELETE session-id=" + truncate(sid, 20), Verb: http.MethodDelete, Hdr: map[string]string{"Mcp-Session-Id": sid}, NoAnswer: true})
 		}
